@@ -406,6 +406,18 @@ def run(ctx):
         ctx.attempt(rule3_unlock, ctx, v)
         ctx.attempt(rule4_nonblocking, ctx, fl)
         ctx.attempt(rule5_ilock, ctx, fl)
+    from . import c20
+    for fl in flavours(ctx):
+        ctx.unit = fl
+        with ctx.shared({'C20.3': 'C04.9'}, keep=lambda k: k.startswith('mutex:'), floor=8,
+                        doc='timed lock (shared with C20.3): the first attempt precedes the deadline test, the timeout code is returned only '
+                            'past the deadline and never after a try that was not examined, 0 only after a successful try, and every '
+                            'waiting iteration yields with an option that serves the local run queue (a steal-only yield keeps the '
+                            'worker from the very thread that holds the mutex)'):
+            v20 = ctx.view(NATIVE, roots=['myth_nanosleep_body', 'myth_timespec_gt', 'myth_timespec_add', 'myth_mutex_timedlock_body',
+                                          'myth_timedjoin_body', 'myth_usleep_body', 'myth_sleep_body'],
+                           stops=('hr_gettime', 'myth_yield_body', 'myth_yield_ex_body', 'myth_mutex_trylock_body', 'myth_tryjoin_body'), flavour=fl)
+            ctx.attempt(c20.rule3_noearly, ctx, v20)
     from . import c16
     for wfl in ('ld', 'dl'):
         ctx.unit = wfl
